@@ -4,6 +4,8 @@
    init <roothex>                         fresh topology with that root cpuset                  -> obs
    reg <cs|NULL> <forced> <flags> name=value ...   hwloc_cpukinds_register                      -> rc=.. stalehit=.. obs
    regskip <same args>                    not executed (stale-slot defect class)                -> skipped stalehit=..
+   ireg <cs> <forced> <flags> name=value ...       hwloc_internal_cpukinds_register (no ranking) -> rc=.. stalehit=.. obs
+   iregskip <same args>                   not executed (stale-slot defect class)                -> skipped stalehit=..
    restrict <sethex> | dup | xml | refresh                                                      -> rc=.. obs
    by <cs|NULL> <flags> | nr <flags> | info <id> <flags>                                        -> r=..
 -/
@@ -70,6 +72,17 @@ def step (d : DState) (line : String) : DState × String :=
   | "regskip" :: cs :: f :: fl :: infos => match parseCs cs, parseInt f, parseNat fl, infos.mapM parseInfo with
       | some (some c), some f, some fl, some infos =>
         let hit := fl == 0 && c != 0 && staleHit d.st c (if f < 0 then -1 else f) infos true
+        (d, "skipped stalehit=" ++ b01 hit)
+      | _, _, _, _ => bad
+  | "ireg" :: cs :: f :: fl :: infos => match parseCs cs, parseInt f, parseNat fl, infos.mapM parseInfo with
+      | some (some c), some f, some fl, some infos =>
+        let hit := c != 0 && fl / 2 == 0 && staleHit d.st c f infos (fl % 2 == 1)
+        let (st', e) := internalRegister d.st c f infos fl
+        ({ d with st := st' }, "rc=" ++ errStr e ++ " stalehit=" ++ b01 hit ++ " " ++ showObs st')
+      | _, _, _, _ => bad
+  | "iregskip" :: cs :: f :: fl :: infos => match parseCs cs, parseInt f, parseNat fl, infos.mapM parseInfo with
+      | some (some c), some f, some fl, some infos =>
+        let hit := c != 0 && fl / 2 == 0 && staleHit d.st c f infos (fl % 2 == 1)
         (d, "skipped stalehit=" ++ b01 hit)
       | _, _, _, _ => bad
   | ["restrict", s] => match parseHex s with
